@@ -176,7 +176,7 @@ def lean_phase(ctx, mod):
         ctx.extra["build_log_tail"] = log[-3000:]
         ctx.discharged = max(0, ctx.obligations - len(failing))
         return False
-    axioms, out = lean.audit(prop_mod, prop_ths)
+    axioms, out = lean.audit(prop_mod, prop_ths, getattr(mod, "NAMESPACE", "Pya"))
     n_bad = 0
     for name, ax in axioms.items():
         if ax is None:
